@@ -94,6 +94,7 @@ func Explore(cfg *harness.Config, rep *harness.Report, p *pool.Pool, programs []
 	st.Programs = len(programs)
 	jobs := make(chan json.RawMessage)
 	inflight := map[int]Job{}
+	machineryRetries := map[string]int{}
 	idx := 0
 	go func() {
 		defer close(jobs)
@@ -141,6 +142,21 @@ func Explore(cfg *harness.Config, rep *harness.Report, p *pool.Pool, programs []
 		}()
 		j := inflight[r.Index]
 		delete(inflight, r.Index)
+		if r.Crashed && strings.Contains(r.Stderr, "runtime.tracebackothers") && strings.Contains(r.Stderr, "vsched.(*Sched).snapshot") {
+			// the Go runtime itself faulted while the CONTROLLER took its
+			// goroutine snapshot (runtime.Stack(all)): a failure of the machinery,
+			// not of the code under test.  Re-run the job; give up on the subtree
+			// (never a verdict) if it keeps happening.
+			key := string(j.Program) + "|" + strings.Join(j.Prefix, " ")
+			machineryRetries[key]++
+			rep.Add("machinery_crashes_in_runtime_stack", 1)
+			if machineryRetries[key] <= 3 {
+				queue = append(queue, j)
+			} else {
+				rep.NotExhaustive("a schedule subtree was dropped after runtime.Stack crashed the worker 4 times")
+			}
+			return
+		}
 		if r.Crashed || r.Hung {
 			kind := "crashed"
 			if r.Hung {
